@@ -213,6 +213,11 @@ func fromCtyNumberFloat(bf *big.Float, target reflect.Value, path cty.Path) erro
 				return path.NewErrorf("value must be between %f and %f inclusive", -math.MaxFloat64, math.MaxFloat64)
 			}
 		}
+		if target.Kind() == reflect.Float32 && !math.IsInf(fv, 0) && math.IsInf(float64(float32(fv)), 0) {
+			// A finite number beyond the range of float32 must not silently
+			// become an infinity when narrowed.
+			return path.NewErrorf("value must be between %f and %f inclusive", -math.MaxFloat32, math.MaxFloat32)
+		}
 		target.SetFloat(fv)
 		return nil
 	default:
